@@ -47,7 +47,8 @@ func (node *tagIncludeNode) Execute(ctx *ExecutionContext, writer TemplateWriter
 		includedTpl, err2 := ctx.template.set.FromFile(includedFilename)
 		if err2 != nil {
 			// if this is ReadFile error, and "if_exists" flag is enabled
-			if node.ifExists && err2.(*Error).Sender == "fromfile" {
+			// (only if the included file itself is missing, not a file it refers to)
+			if node.ifExists && err2.(*Error).Sender == "fromfile" && err2.(*Error).Filename == includedFilename {
 				return nil
 			}
 			return err2.(*Error)
@@ -91,7 +92,8 @@ func tagIncludeParser(doc *Parser, start *Token, arguments *Parser) (INodeTag, *
 		includedTpl, err := doc.template.set.FromFile(includedFilename)
 		if err != nil {
 			// if this is ReadFile error, and "if_exists" token presents we should create and empty node
-			if err.(*Error).Sender == "fromfile" && ifExists {
+			// (only if the included file itself is missing, not a file it refers to)
+			if err.(*Error).Sender == "fromfile" && err.(*Error).Filename == includedFilename && ifExists {
 				return &tagIncludeEmptyNode{}, nil
 			}
 			return nil, err.(*Error).updateFromTokenIfNeeded(doc.template, filenameToken)
